@@ -10,6 +10,7 @@ pub use crate::socket::{
         relay_verif::{RecvOut, RelayRecvHarness},
     },
 };
+pub use crate::net_report::verif::ReportHistory;
 use crate::{address_lookup::AddressLookupServices, endpoint_info::EndpointData};
 
 /// Calls the crate-private `AddressLookupServices::publish` (what the endpoint's actor calls).
